@@ -1,4 +1,4 @@
-//@unit name=pageralloc props=C09,C12
+//@unit name=pageralloc props=C09,C12,C11
 //@strip-pub
 // Unit `pageralloc`: page allocation and deallocation against an abstract free list (C09: the free
 // list kept in page zero and in the freed pages survives close/reopen only if it is a well-formed
@@ -147,8 +147,8 @@ impl Pager {
     #[verifier::external_body]
     pub fn write_frame_ro(&mut self, frame: &MemFrame, id: PageId, size: u32) -> (r: io::Result<()>)
         requires
-            [C09:dealloc.writes_free_format_image] frame.free_fmt(),
-            [C09:dealloc.writes_at_own_page_id] id == frame.id(),
+            [C09,C11:dealloc.writes_free_format_image] frame.free_fmt(),
+            [C09,C11:dealloc.writes_at_own_page_id] id == frame.id(),
             [C09,C12:dealloc.writes_whole_page] size == old(self).psize,
         ensures
             final(self).first == old(self).first, final(self).last == old(self).last, final(self).total == old(self).total, final(self).nextm == old(self).nextm, final(self).cache == old(self).cache, final(self).psize == old(self).psize,
@@ -174,8 +174,8 @@ impl Pager {
 //@ sub /\.reinit_as::<P::Header>\(\)/ => .reinit_as()
 //@ sub /P::alloc\(/ => alloc_fresh(
 //@ ensures
-//@   [C09:alloc.pops_free_list_head] forall|s: Seq<u64>| #![trigger old(self).is_free_list(s)] old(self).is_free_list(s) && s.len() > 0 && r is Ok ==> r == Ok::<PageId, IoError>(s[0]) && final(self).is_free_list(s.drop_first()) && final(self).total_pages() == old(self).total_pages(),
-//@   [C09:alloc.fresh_page_number_when_list_empty] old(self).first_free() is None && r is Ok ==> r == Ok::<PageId, IoError>(old(self).total_pages()) && final(self).total_pages() == old(self).total_pages() + 1 && final(self).first_free() is None && final(self).last_free() == old(self).last_free(),
+//@   [C09,C11:alloc.pops_free_list_head] forall|s: Seq<u64>| #![trigger old(self).is_free_list(s)] old(self).is_free_list(s) && s.len() > 0 && r is Ok ==> r == Ok::<PageId, IoError>(s[0]) && final(self).is_free_list(s.drop_first()) && final(self).total_pages() == old(self).total_pages(),
+//@   [C09,C11:alloc.fresh_page_number_when_list_empty] old(self).first_free() is None && r is Ok ==> r == Ok::<PageId, IoError>(old(self).total_pages()) && final(self).total_pages() == old(self).total_pages() + 1 && final(self).first_free() is None && final(self).last_free() == old(self).last_free(),
 //@   [C09,C12:alloc.handed_out_page_cached_dirty] r matches Ok(i) ==> (exists|f: MemFrame| final(self).cached().contains(f) && f.id() == i && f.dirty()),
 //@end
 
@@ -188,9 +188,9 @@ impl Pager {
 //@ requires
 //@   old(self).unpinned(id),
 //@ ensures
-//@   [C09:dealloc.appends_to_free_list] forall|s: Seq<u64>| #![trigger old(self).is_free_list(s)] old(self).is_free_list(s) && !s.contains(id) && r is Ok ==> final(self).is_free_list(s.push(id)),
-//@   [C09:dealloc.page_zero_refused] id == 0 ==> r is Err,
-//@   [C09:dealloc.keeps_page_count] final(self).total_pages() == old(self).total_pages(),
+//@   [C09,C11:dealloc.appends_to_free_list] forall|s: Seq<u64>| #![trigger old(self).is_free_list(s)] old(self).is_free_list(s) && !s.contains(id) && r is Ok ==> final(self).is_free_list(s.push(id)),
+//@   [C09,C11:dealloc.page_zero_refused] id == 0 ==> r is Err,
+//@   [C09,C11:dealloc.keeps_page_count] final(self).total_pages() == old(self).total_pages(),
 //@   [C09,C12:dealloc.freed_image_cached] r is Ok ==> (exists|f: MemFrame| final(self).cached().contains(f) && f.id() == id && f.free_fmt()),
 //@end
 }
